@@ -177,7 +177,11 @@ def prim (B : Backend) (op : String) (args : List Sx) (impl : Sx) : Option Outco
     pure (exact (Res.ok (Prim.max xs)) impl)
   | "prim.segmented_sum", [k, x] => do
     let k : L ← dec k; let x : L ← dec x
-    pure (exact (segmentedSum k x) impl)
+    -- documented precondition (array/traits.rs): `self.sum() == x.len()`; outside it the property
+    -- prescribes nothing (the code may truncate, the documentation says it panics)
+    if Prim.sum k != x.length then
+      pure { model := enc (segmentedSum k x), agree := true, rel := "outside-precondition(sum of sizes != length)" }
+    else pure (exact (segmentedSum k x) impl)
   | "prim.segmented_arange", [k] => do
     let k : L ← dec k
     pure (exact (segmentedArange k) impl)
